@@ -309,7 +309,7 @@ MANIFEST_TEXT["C15"] = dict(
 # --------------------------------------------------------------------------------------------
 # C05 and the Map (key-level) parts of the generic properties
 # --------------------------------------------------------------------------------------------
-MAP_PROFILES = [dict(name="map_corr", quick=900, thorough=20000), dict(name="map_scenario", quick=900, thorough=20000)]
+MAP_PROFILES = [dict(name="map_corr", quick=900, thorough=20000), dict(name="map_scenario", quick=900, thorough=20000), dict(name="map_overtake", quick=600, thorough=15000)]
 MAP_KEY_FIELDS = ["gk0", "gk1", "gk2", "keys", "len", "isempty"]
 
 PROPS["C05"] = dict(
@@ -554,3 +554,36 @@ for _pid in ("C01", "C05"):
 PROPS["C05"]["statement_coverage"] = ("key-level statement proved in full for every value type and depth; nested contents: proved for op-only histories without key removes (nested_eq_fold / nested_converge) and, for a key-remove step, "
                                       "locally (rm_step_value_partial); the global nested statement is false on the pinned tree (known findings KF-C05-*)")
 PROPS["C01"]["statement_coverage"] = PROPS["C01"]["statement_coverage"].replace("Map nested contents false on the pinned tree (known findings)", "Map nested contents: proved for histories without key removes (C05.nested_converge), false on the pinned tree once key removes are involved (known findings)")
+
+# --------------------------------------------------------------------------------------------
+# Map<K,Orswot> under causal op-only delivery: nested READS are observed-remove (Props/C05NestedOrswot.lean)
+# --------------------------------------------------------------------------------------------
+_NESTED_OR = ["Crdt.C05." + t for t in ["reachC_toReach", "map_deferred_empty", "nested_orswot_witnesses", "nested_clock_le", "nested_deferred_known", "nested_orswot_member_iff",
+                                         "key_remove_wipes_seen", "unseen_add_survives", "nested_orswot_reads_converge", "nested_orswot_entries_converge",
+                                         "NestedOrswotExample.states_differ_reads_agree", "NestedOrswotExample.causal_premise_needed"]]
+for _pid in ("C01", "C05"):
+    PROPS[_pid]["lean_targets"] = PROPS[_pid]["lean_targets"] + ["CrdtModel.Props.C05NestedOrswot"]
+    PROPS[_pid]["required_theorems"] = PROPS[_pid]["required_theorems"] + _NESTED_OR
+    PROPS[_pid]["explanation"] += (" Nested Orswot values WITH key removes (Props/C05NestedOrswot.lean): under causal op-only delivery (ReachC: per-actor order + every remove context below the receiver's clock) the nested witness table under "
+                                   "every key equals the observed-remove specification E2 (newest nested add unless covered by a known nested remove of the member or a known key remove of the key) – nested_orswot_witnesses –, hence membership "
+                                   "(nested_orswot_member_iff), 'everything the remover had seen is gone / what it had not seen remains' (key_remove_wipes_seen, unseen_add_survives) and convergence of nested reads and contexts "
+                                   "(nested_orswot_reads_converge); nested STATES may differ by residue (states_differ_reads_agree), and the causal premise is needed (causal_premise_needed), both kernel-checked.")
+PROPS["C05"]["statement_coverage"] = ("key-level statement proved in full for every value type and depth; nested contents: Orswot values under causal op-only delivery proved in full incl. key removes (nested_orswot_member_iff, reads converge); "
+                                      "any value type in histories without key removes (nested_eq_fold / nested_converge); a key-remove step locally (rm_step_value_partial); the global nested statement (merges, non-causal delivery, MVReg values) is false "
+                                      "on the pinned tree (known findings KF-C05-*)")
+MANIFEST_TEXT["C05"]["text"] += (" Nested contents: for Map<K,Orswot> under causal op delivery the nested reads are proved to be exactly the observed-remove specification including key removes (what the remover had seen is gone, unseen adds remain, "
+                                 "replicas with the same ops read the same); for every value type, histories without key removes are proved to converge.")
+
+# --------------------------------------------------------------------------------------------
+# MapWF holds in every derivable Map state (Props/C18MapReach.lean): the reset_remove laws are unconditional on derivable states
+# --------------------------------------------------------------------------------------------
+PROPS["C18"]["lean_targets"] = PROPS["C18"]["lean_targets"] + ["CrdtModel.Props.C18MapReach"]
+PROPS["C18"]["required_theorems"] += ["Crdt.C18." + t for t in [
+    "orswot_wf_apply", "orswot_wf_merge", "mvreg_wf_apply", "mvreg_wf_merge", "map_reach_vals", "map_reach_wf", "map_wf_apply", "map_wf_merge", "map_closed",
+    "map_reach_compose", "map_reach_empty", "map_reach_idem", "map_reach_commute", "mvreg_closed", "orswot_closed",
+    "map_mvreg_reach_wf", "map_orswot_reach_wf", "map_map_mvreg_reach_wf", "map_mvreg_reach_compose", "map_orswot_reach_compose", "map_map_mvreg_reach_compose",
+    "ReachExample.nested_op_wf_needed"]]
+PROPS["C18"]["explanation"] += (" Props/C18MapReach.lean: the invariant MapWF (key level well-formed, every stored value satisfies the value type's invariant) is proved for EVERY derivable Map state (map_reach_wf; Orswot.StateWF and MVReg.ValsWF "
+                                "are preserved by apply/merge/reset_remove on arbitrary well-formed states, Map over a closed value type is closed: any nesting depth), so the Map laws hold unconditionally on derivable states of Map<K,MVReg>, "
+                                "Map<K,Orswot>, Map<K,Map<K2,MVReg>> (map_*_reach_compose/empty/idem) over logs whose nested contexts store no zero (needed: nested_op_wf_needed).")
+PROPS["C18"]["statement_coverage"] = "full statement proved for VClock, GCounter, PNCounter, MVReg, Orswot and Map (any lawful value type / nesting depth), for all well-formed states, and every derivable state is well-formed (*_reach_wf)"
